@@ -34,9 +34,13 @@ func zzResolver(maxConcurrency int) *Resolver {
 var zzErrUpstream = errors.New("upstream failed")
 
 type zzSource struct {
-	calls int
-	fail  bool
+	calls   int
+	fail    bool
+	callers []int // which client's request context each upstream call ran under
+	aborted []int // the clients whose upstream call ended with their own context error
 }
+
+type zzClientKey struct{}
 
 // zzHeaders: forwarded headers of one client; the hash identifies the header set.
 type zzHeaders struct {
@@ -51,8 +55,14 @@ func (h *zzHeaders) HashAll() uint64 { return h.hash }
 
 func (s *zzSource) Load(ctx context.Context, headers http.Header, input []byte) ([]byte, error) {
 	s.calls++
+	if c, ok := ctx.Value(zzClientKey{}).(int); ok {
+		s.callers = append(s.callers, c)
+	}
 	verifYield() // the request is in flight: other goroutines may run here
 	if err := ctx.Err(); err != nil {
+		if c, ok := ctx.Value(zzClientKey{}).(int); ok {
+			s.aborted = append(s.aborted, c)
+		}
 		return nil, err // a real transport returns the caller's context error
 	}
 	if s.fail {
@@ -112,8 +122,11 @@ func VerifC11Inbound(n, withCancel, withFail int) {
 	resp := zzResponse(ds, ast.OperationTypeQuery)
 	ids := make([]uint64, n)
 	for i := range ids {
-		// two possible ids: equal ids share a key
-		if nondetBool() {
+		// two possible ids: equal ids share a key (withFail bit 8: every request has its own id, so that sharing can
+		// only happen at the subgraph-request level)
+		if withFail&8 != 0 {
+			ids[i] = uint64(10 + i)
+		} else if nondetBool() {
 			ids[i] = 1
 		} else {
 			ids[i] = 2
@@ -135,10 +148,10 @@ func VerifC11Inbound(n, withCancel, withFail int) {
 	ctxs := make([]context.Context, n)
 	var cancel0 context.CancelFunc
 	for i := range ctxs {
-		ctxs[i] = context.Background()
+		ctxs[i] = context.WithValue(context.Background(), zzClientKey{}, i)
 	}
 	if withCancel != 0 {
-		ctxs[0], cancel0 = context.WithCancel(context.Background())
+		ctxs[0], cancel0 = context.WithCancel(ctxs[0])
 	}
 	var wg sync.WaitGroup
 	for i := 0; i < n; i++ {
@@ -168,6 +181,14 @@ func VerifC11Inbound(n, withCancel, withFail int) {
 	wg.Wait()
 
 	for i := 0; i < n; i++ {
+		e := ""
+		if errs[i] != nil {
+			e = errs[i].Error()
+		}
+		verifObserveString("result", string(rune('0'+i))+": "+outs[i].buf.String()+" err="+e)
+	}
+	verifObserveInt("calls", ds.calls)
+	for i := 0; i < n; i++ {
 		own := withCancel != 0 && i == 0
 		if errs[i] != nil {
 			// a failure of the shared work this request would also have hit alone, its own cancellation,
@@ -191,6 +212,19 @@ func VerifC11Inbound(n, withCancel, withFail int) {
 			continue
 		}
 		if withCancel != 0 {
+			// How did another client's disconnect reach this live request?
+			//  - same inbound key as the disconnecting client: that client led the whole-operation single flight and its
+			//    failure response was published (known finding);
+			//  - different inbound key, and an upstream call made under the disconnecting client's context was aborted:
+			//    that client led the subgraph-request single flight and its context error was shared (known finding);
+			//  - different inbound key and no aborted upstream call: the disconnecting client was not doing the shared
+			//    work at all.
+			if ids[i] != ids[0] {
+				if len(ds.aborted) == 0 {
+					verifAssert(false, "a live request does not fail because a client that was not doing the shared work disconnected")
+				}
+				verifAssert(false, "a live request receives the data it would get alone (not the context error of the subgraph single-flight leader)")
+			}
 			verifAssert(false, "a live request receives the data it would get alone (not another client's failure)")
 		} else {
 			verifAssert(false, "a request receives the data it would get alone")
